@@ -17,7 +17,7 @@ from . import s3, s4
 ID = "C08"
 RULE = (
     "(a) accounting: every CVR list of n cards with every style over 2 contests x per-contest card bound in {unset, count, "
-    "count+1, count+2} x stratum bound in {n, n+1, n+3} x style on/off x pool label on/off: make_phantoms must return the "
+    "count+1, count+2} x stratum bound in {n, n+1, n+3} x style on/off x pool label on/off (and three contests with shortfalls in {0,1,3,6}, style on): make_phantoms must return the "
     "original objects unchanged and first, unique phantom identifiers distinct from real ones, per-contest (style) or total "
     "(no style) record counts equal to the bound, and no more phantoms than the largest shortfall; (b) scoring: for every "
     "card of the S3 alphabet inside every population of <= 2 cards, every assorter kind, style on/off: replacing the manual "
@@ -37,7 +37,7 @@ def bounds(tier):
             "scoring populations": "<= 2 cards of the S3 alphabet x 4 assorter kinds", "vendor samples": "all ordered samples of <= 3 from lists of <= 4"}
 
 
-def judge_accounting(styles, cb, sb, use_style, pool):
+def judge_accounting(styles, cb, sb, use_style, pool, IDS=IDS):
     n = len(styles)
     cvrs = s4.make_cards(styles, list(range(1, n + 1)))
     for c in cvrs:
@@ -184,17 +184,21 @@ def judge_vendor(vendor, layout, sample):
 
 
 def run_shard(sh, rec):
-    if sh[0] == "acct":
+    if sh[0] in ("acct", "acct3"):
         _, n, first = sh
-        menu = s4.style_menu(2)
+        k = 2 if sh[0] == "acct" else 3
+        ids = s4.CONTESTS[:k]
+        menu = s4.style_menu(k)
         for rest in itertools.product(range(len(menu)), repeat=n - 1):
             styles = [menu[first]] + [menu[j] for j in rest]
             rec.state()
-            for cb in itertools.product([None, 0, 1, 2], repeat=2):
+            for cb in itertools.product([None, 0, 1, 2] if k == 2 else [0, 1, 3, 6], repeat=k):
                 for sb in (0, 1, 3):
                     for use_style in (True, False):
                         for pool in (False, True):
-                            v, info = judge_accounting(styles, cb, sb, use_style, pool)
+                            if k == 3 and (pool or not use_style):
+                                continue  # three contests: the per-contest (style) accounting only
+                            v, info = judge_accounting(styles, cb, sb, use_style, pool, ids)
                             rec.trans()
                             rec.evals()
                             rec.trace()
@@ -206,7 +210,7 @@ def run_shard(sh, rec):
                                 if info["shared"]:
                                     rec.vac("shared_phantom_two_contests")
                             for key, what in v:
-                                rec.violate(key, what, {"kind": "acct", "styles": [list(s) for s in styles], "cb": list(cb), "sb": sb, "use_style": use_style, "pool": pool})
+                                rec.violate(key, what, {"kind": "acct", "styles": [list(s) for s in styles], "cb": list(cb), "sb": sb, "use_style": use_style, "pool": pool, "ids": ids})
                             if rec.want_sample((styles, cb, sb, use_style, pool)):
                                 rec.sample({"styles": [list(s) for s in styles], "contest_bounds(count+)": list(cb), "stratum_bound(n+)": sb, "use_style": use_style,
                                             "pool_label": pool, "phantoms": info and info["phantoms"]})
@@ -250,6 +254,9 @@ def explore(tier, seed):
     for n in range(1, PLAN[tier] + 1):
         for first in range(4):
             sh.append(("acct", n, first))
+    for n in range(1, 3 if tier == "quick" else 4):
+        for first in range(8):
+            sh.append(("acct3", n, first))
     for kind in s3.KINDS:
         for n in (1, 2):
             for first in range(len(s3.alphabet(kind))):
@@ -259,7 +266,7 @@ def explore(tier, seed):
 
 def run_case(case):
     if case["kind"] == "acct":
-        return judge_accounting([tuple(s) for s in case["styles"]], tuple(case["cb"]), case["sb"], case["use_style"], case["pool"])[0]
+        return judge_accounting([tuple(s) for s in case["styles"]], tuple(case["cb"]), case["sb"], case["use_style"], case["pool"], case.get("ids", IDS))[0]
     if case["kind"] == "score":
         return judge_scoring(case["akind"], [tuple(c) for c in case["cards"]], case["style"])[0]
     return judge_vendor(case["vendor"], tuple(case["layout"]), case["sample"])
